@@ -33,6 +33,24 @@ EXEMPT_FIELDS = {
     "signature": "compiler bookkeeping (hash of the producing spec), not consumed by the engine and outside the sizes/options/"
                  "arrays the property enumerates",
 }
+# Variable-width / typed references: an entry of the array is only meaningful together with a discriminator or a width that
+# lives in another array, so a bound check that ignores it cannot establish "in bounds".  Each row: array -> (arrays that
+# must take part in the rejecting condition for it, reason).  This is domain knowledge of the model layout, one line each.
+TYPED_REFS = {
+    "jnt_qposadr": (("jnt_type",), "a joint owns 7/4/1/1 qpos entries depending on its type"),
+    "jnt_dofadr": (("jnt_type",), "a joint owns 6/3/1/1 dofs depending on its type"),
+    "hfield_adr": (("hfield_nrow", "hfield_ncol"), "a height field owns nrow*ncol data entries"),
+    "tex_adr": (("tex_height", "tex_width", "tex_nchannel"), "a texture owns height*width*nchannel bytes"),
+    "geom_dataid": (("geom_type",), "the data id indexes hfields or meshes depending on the geom type"),
+    "eq_obj1id": (("eq_type",), "the object kind of an equality depends on its type"),
+    "eq_obj2id": (("eq_type",), "the object kind of an equality depends on its type"),
+    "wrap_objid": (("wrap_type",), "the wrapped object kind depends on the wrap type"),
+    "actuator_trnid": (("actuator_trntype",), "the transmission target kind depends on the transmission type"),
+    "sensor_objid": (("sensor_objtype",), "the object kind depends on sensor_objtype"),
+    "sensor_refid": (("sensor_reftype",), "the reference kind depends on sensor_reftype"),
+    "tuple_objid": (("tuple_objtype",), "the object kind depends on tuple_objtype"),
+    "sensor_adr": (("sensor_type",), "a sensor owns a type-dependent number of sensordata entries"),
+}
 REF_PATTERN = re.compile(r"(adr|id|_plugin|pair_geom1|pair_geom2)$")
 
 
@@ -97,14 +115,52 @@ def _expand_count(term):
     return [term]
 
 
+def _expand_call(fn, c):
+    """(field, size) entries one bufread/bufwrite call stands for.
+
+    A call whose buffer is a local array packed from / unpacked into model fields (`T a[] = {m->f, m->g}; bufwrite(a, sizeof(a))`,
+    `bufread(a, sizeof(a)); m->f = a[0]; m->g = a[1];`) is expanded into one entry per element in element order, so that
+    packing refactors compare by what they really store.
+    """
+    a = cir.args(c)
+    tgt = cir.strip(a[0])
+    size_txt = cir.text(a[1])
+    if tgt is not None and tgt.get("k") == "DeclRefExpr" and (tgt.get("ref") or {}).get("k") == "VarDecl":
+        vid = tgt["ref"].get("id")
+        var = next((x for x in cir.walk(fn) if x.get("k") == "VarDecl" and x.get("id") == vid), None)
+        vt = (var.get("t") or "") if var is not None else ""
+        m_ = re.match(r"(?:const )?(\w+) ?\[(\d+)\]", vt)
+        if var is not None and m_ and size_txt == f"sizeof({var.get('n')})":
+            elem, n = m_.group(1), int(m_.group(2))
+            fields = {}
+            il = [x for x in cir.kids(var) if x is not None and x.get("k") == "InitListExpr"]
+            if il:
+                for i, e in enumerate(cir.kids(il[0])):
+                    rf = modref.root_field(e)
+                    if rf and rf[0] == "mjModel":
+                        fields[i] = rf[1]
+            for x in cir.walk(fn):
+                if x.get("k") == "BinaryOperator" and x.get("op") == "=":
+                    r = cir.strip(cir.kids(x)[1])
+                    if r is not None and r.get("k") == "ArraySubscriptExpr":
+                        b = cir.strip(cir.kids(r)[0])
+                        if b is not None and b.get("k") == "DeclRefExpr" and (b.get("ref") or {}).get("id") == vid:
+                            rf = modref.root_field(cir.kids(x)[0])
+                            idx = cir.text(cir.kids(r)[1])
+                            if rf and rf[0] == "mjModel" and idx.isdigit():
+                                fields[int(idx)] = rf[1]
+            if len(fields) == n:
+                return [{"field": fields[i], "target": f"{var.get('n')}[{i}]", "size": _norm_size(f"sizeof({elem})"),
+                         "line": c.get("line"), "node": c} for i in range(n)]
+    rf = modref.root_field(tgt) if tgt is not None else None
+    return [{"field": rf[1] if rf else cir.text(tgt), "target": cir.text(tgt), "size": _norm_size(size_txt),
+             "line": c.get("line"), "node": c}]
+
+
 def _io_calls(fn, name):
     out = []
     for c in cir.calls(fn, name):
-        a = cir.args(c)
-        tgt = cir.strip(a[0])
-        rf = modref.root_field(tgt) if tgt is not None else None
-        out.append({"field": rf[1] if rf else cir.text(tgt), "target": cir.text(tgt), "size": _norm_size(cir.text(a[1])),
-                    "line": c.get("line"), "node": c})
+        out += _expand_call(fn, c)
     return out
 
 
@@ -156,17 +212,19 @@ def run(res, tier):
     wrest = [(x["field"], x["size"]) for x in w[wi:]]
     rrest = [(x["field"], x["size"]) for x in r[2:]]
     n = max(len(wrest), len(rrest))
+    nbad = 0
     for i in range(n):
         a = wrest[i] if i < len(wrest) else None
         b = rrest[i] if i < len(rrest) else None
         key = (a or b)[0]
         if a == b:
             res.ok("IO-SEQ", f"rw:{key}", {"size": a[1]} if i < 3 else None)
-        else:
+        elif nbad < 6:
+            nbad += 1
             ln = (w[wi + i]["line"] if i < len(wrest) else r[2 + i]["line"])
             res.bad("IO-SEQ", f"rw:{key}", FILE, ln, f"position {i}: writer has {a}, reader has {b}")
-            if a is None or b is None or a[0] != b[0]:
-                break
+        else:
+            res.seen("IO-SEQ", f"rw:{key}")
     # pointer rows follow the X-macro exactly
     prest = [x for x in wrest if x[0] in {p["name"] for p in prow}]
     if [x[0] for x in prest] != [p["name"] for p in prow]:
@@ -230,12 +288,10 @@ def run(res, tier):
                     for p in parts:
                         budget += _expand_count(_norm_size(p))
             continue
-        for c in cir.calls(st, "bufread"):
-            a = cir.args(c)
-            size = _norm_size(cir.text(a[1]))
-            tgt = cir.strip(a[0])
-            rf = modref.root_field(tgt)
-            key = rf[1] if rf else cir.text(tgt)
+        for c, ent in [(c_, e_) for c_ in cir.calls(st, "bufread") for e_ in _expand_call(fn, c_)]:
+            size = ent["size"]
+            tgt = cir.strip(cir.args(c)[0])
+            key = ent["field"]
             if size in budget:
                 budget.remove(size)
                 res.ok("IO-GUARD", f"read:{key}", {"size": size} if key in ("header", "opt", "sizes") else None)
@@ -243,7 +299,7 @@ def run(res, tier):
                 res.bad("IO-GUARD", f"read:{key}", FILE, c.get("line"),
                         f"bufread of `{size}` into {cir.text(tgt)} is not covered by a preceding truncation guard (warning + return NULL)")
     # any bufread nested deeper (not top-level statement) is unaccounted
-    nread = len(list(cir.calls(fn, "bufread")))
+    nread = len(r)
     if nread != res.rules["IO-GUARD"]["instances"]:
         res.bad("IO-GUARD", "nested-read", FILE, fn.get("line"), "a bufread occurs in a nested statement the guard rule does not follow")
 
@@ -369,6 +425,17 @@ def validate(res, u, prow):
                 if y.get("k") == "DeclRefExpr" and (y.get("ref") or {}).get("id") in local_src:
                     prev |= local_src[y["ref"]["id"]]
             local_src[x.get("id")] = srcs | prev
+    # locals assigned after their declaration (e.g. `int sensor_size; if (..) sensor_size = f(..); else sensor_size = g(..)`)
+    for _round in range(2):
+        for x in cir.walk(fn):
+            if x.get("k") == "BinaryOperator" and x.get("op") == "=":
+                l = cir.strip(cir.kids(x)[0])
+                if l is not None and l.get("k") == "DeclRefExpr" and (l.get("ref") or {}).get("k") == "VarDecl":
+                    srcs = {y.get("n") for y in cir.walk(cir.kids(x)[1]) if y.get("k") == "MemberExpr" and y.get("arrow")}
+                    for y in cir.walk(cir.kids(x)[1]):
+                        if y.get("k") == "DeclRefExpr" and (y.get("ref") or {}).get("id") in local_src:
+                            srcs |= local_src[y["ref"]["id"]]
+                    local_src[l["ref"]["id"]] = local_src.get(l["ref"]["id"], set()) | srcs
     for x in cir.walk(fn):
         if x.get("k") == "IfStmt":
             then = cir.kids(x)[1]
@@ -389,6 +456,51 @@ def validate(res, u, prow):
             res.bad("REF-COVER", p["name"], FILE, fn.get("line"),
                     f"cross-reference array {p['name']} ({p['nr']}x{p['nc']}) is never bound-checked by mj_validateReferences: a "
                     f"corrupted file loads with out-of-range entries")
+    # typed references: the rejecting condition for the array is control- or data-dependent on its discriminator(s)
+    res.rule("REF-TYPED", "variable-width / typed references are bound-checked together with their discriminator or width array", floor=10)
+    facts = []   # (fields read by a rejecting condition incl. enclosing switch/if conditions and locals)
+
+    def fields_of(node):
+        out = set()
+        for y in cir.walk(node):
+            if y.get("k") == "MemberExpr" and y.get("arrow"):
+                out.add(y.get("n"))
+            if y.get("k") == "DeclRefExpr" and (y.get("ref") or {}).get("id") in local_src:
+                out |= local_src[y["ref"]["id"]]
+        return out
+
+    def visit(node, ctxf):
+        if node is None:
+            return
+        k = node.get("k")
+        if k == "IfStmt":
+            c = cir.kids(node)
+            cf = fields_of(c[0])
+            then = c[1] if len(c) > 1 else None
+            if then is not None and any(y.get("k") == "ReturnStmt" for y in cir.walk(then)):
+                facts.append(ctxf | cf)
+            for x in c[1:]:
+                visit(x, ctxf | cf)
+            return
+        if k == "SwitchStmt":
+            c = [x for x in cir.kids(node) if x is not None]
+            cf = fields_of(c[0])
+            visit(c[-1], ctxf | cf)
+            return
+        for x in cir.kids(node):
+            visit(x, ctxf)
+    visit(cir.body(fn), frozenset())
+    for arr, (need, why) in sorted(TYPED_REFS.items()):
+        if arr not in rows:
+            res.bad("REF-TYPED", arr, FILE, fn.get("line"), f"typed reference array {arr} is not a model array any more: update the table")
+            continue
+        hits = [f for f in facts if arr in f]
+        if any(all(d_ in f for d_ in need) for f in hits):
+            res.ok("REF-TYPED", arr, {"with": list(need)})
+        else:
+            res.bad("REF-TYPED", arr, FILE, fn.get("line"),
+                    f"no rejecting condition of mj_validateReferences checks {arr} together with {list(need)} ({why}): a corrupt "
+                    f"entry passes a width-1 / kind-agnostic bound check and the block it denotes runs out of bounds")
     # NOFATAL over the closure (validator + local callees)
     from .. import paths
     seen = set()
